@@ -159,6 +159,9 @@ class C08(Harness):
 
     def units(self, tier):
         us = [{'schema': s, 'files': f} for s, f in _layouts(tier)]
+        # loads that ALSO carry command-line overrides (another matcher class reads the text then)
+        for sch, f in _layouts(tier)[:3] + [x for x in _layouts(tier) if x[0] == 'SK'][:2]:
+            us.append({'schema': sch, 'files': f, 'overrides': ['zz=1'] if sch != 'SK' else ['zq=1']})
         # an %include whose reference is refused while it is joined with the includer's URL (before any
         # I/O): the culprit is the directive's own line; given explicitly, the text oracle does not read URLs
         for ref in ('http://[::1/x.conf', '//[localhost]/x.conf'):
@@ -214,7 +217,7 @@ class C08(Harness):
         store = {P.BASE + n: ls for n, ls in files}
         dtsupport.LAST['exc'] = None
         with common.env_scope(common.all_concrete(inp), {}), P.mem_resources(store):
-            r = P.run_load(XML[unit['schema']], files[0][1],
+            r = P.run_load(XML[unit['schema']], files[0][1], overrides=unit.get('overrides', ()),
                            url=None if unit.get('nourl') else P.BASE + files[0][0])
         if r[0] == 'ok':
             return ('ok',)
